@@ -268,3 +268,32 @@ def entities_for(orc: O.FormOracle, itype):
 
 def facet_perm_count(cellname, f=0):
     return O.num_facet_perms(O.facet_celltype(cellname, f))
+
+
+# ----------------------------------------------------------------------------- contract extents
+def contract_extents(orc, itype):
+    """Buffer extents implied by the form alone (UFCx contract): elements of A, w, c, coordinate_dofs,
+    entity_local_index, quadrature_permutation."""
+    m = 2 if itype == "interior_facet" else 1
+    shape = orc.tensor_shape(itype)
+    nA = int(np.prod(shape)) if shape else 1
+    nw = m * sum(c.ufl_function_space().ufl_element().dim for c in orc.reduced_coefficients)
+    nc = sum(int(np.prod(c.ufl_shape)) if c.ufl_shape else 1 for c in orc.constants)
+    nx = m * 3 * orc.coord_element.dim // orc.coord_element.reference_value_shape[0]
+    ne = 0 if itype == "cell" else m
+    npm = 2 if itype == "interior_facet" else 0
+    return {"A": nA, "w": nw, "c": nc, "x": nx, "ent": ne, "perm": npm}
+
+
+def parse_form_tables(source):
+    """{form symbol: (offsets[6], ids)} parsed from generated C (no JIT needed)."""
+    import re
+
+    out = {}
+    for m in re.finditer(r"int form_integral_offsets_(\w+)\[(\d+)\] = \{([^}]*)\};", source):
+        name = m.group(1)
+        offs = [int(v) for v in m.group(3).split(",") if v.strip()]
+        mi = re.search(r"int form_integral_ids_" + name + r"\[(\d+)\] = \{([^}]*)\};", source)
+        ids = [int(v) for v in mi.group(2).split(",") if v.strip()] if mi else []
+        out[name] = (offs, ids)
+    return out
